@@ -10,4 +10,9 @@ MCRanges == {<<1, 4>>, <<2, 5>>}
 SC(ni, m, xmin, cut8) == [NI |-> ni, M |-> m, xmin |-> xmin, cut8 |-> cut8]
 MCSplCfgs == {SC(4, 4, 0, 8), SC(4, 4, 2, 12), SC(4, 4, 4, 8), SC(8, 4, 0, 8), SC(8, 4, 9, 16), SC(8, 2, 4, 8),
               SC(5, 4, 0, 12), SC(5, 4, 2, 8)}
+\* decimal lattice r = P/10: <<fn, lam (c12, c6, A, B/ln2, 10 r0), 10 min, 10 cut, pmax>>
+MCDec == { <<"lj126", <<3, 2, 0, 0, 0>>, 3, 12, 14>>, <<"lj126", <<1, -1, 0, 0, 0>>, 2, 9, 11>>,
+           <<"ljg", <<1, 2, 3, 100, 5>>, 3, 12, 14>>, <<"ljg", <<0, 1, -2, -100, 7>>, 2, 13, 14>> }
+\* one table of 131 073 rows, r = P/4096 from 0.5 to 32.5
+MCBig == { << <<3, 2, 0, 0, 0>>, 2048, 133120 >> }
 ====
